@@ -59,7 +59,8 @@ def pure_sig(quick):
     for r in ROTS:
         for p in ph[:2] if r in ("CU1", "CRx") and quick else ph:
             sig.append(("e", "%s(%r)" % (r, p)))
-    sig += [("e", "Controlled(S)"), ("e", "Controlled(Rz(0.3))"), ("e", "Controlled(Z)"),
+    sig += [("e", "Rx(0.3004)"), ("e", "Rz(0.2996)"), ("e", "CRz(0.3004)"),   # print like the 0.3 gates
+            ("e", "Controlled(S)"), ("e", "Controlled(Rz(0.3))"), ("e", "Controlled(Z)"),
             ("e", "S.dagger()"), ("e", "T.dagger()"), ("e", "Y.dagger()"),
             ("e", "Ket(0)"), ("e", "Ket(1)"), ("e", "Ket(1, 0)"), ("e", "Bra(1)"), ("e", "Bra(0, 1)"),
             ("e", "Bra(0)")]
